@@ -157,10 +157,7 @@ Qed.
 (* ================================================================================================ *)
 (* D. string cards *)
 Lemma escape_length v : length (escape_quotes v) = enc_len v.
-Proof.
-  unfold enc_len, count_char. induction v as [|c r IH]; [reflexivity|].
-  cbn [escape_quotes filter]. destruct (c =? quote); cbn [length]; rewrite IH; lia.
-Qed.
+Proof. exact (escape_quotes_length v). Qed.
 
 Lemma fits_quote_length v : length (fits_quote v) = Nat.max 8 (enc_len v).
 Proof. unfold fits_quote, pad_right. rewrite app_length, repeat_length, escape_length. lia. Qed.
